@@ -4,14 +4,16 @@ Proof: lean/XvcIgnore (GitIgnore.lean, Props/C16.lean).  Tie: translator (GITIGN
 correspondence of the model with (a) xvc's own reading of .gitignore files (walker_harness `gcheckignore`
 = build_gitignore + IgnoreRules::check), (b) git's reading (real `git check-ignore --no-index` on real trees)
 and (c) the bytes of every .gitignore after `xvc file track/recheck/copy/move` driven through the rebuilt binary.
-Oracle (independent of the model): after every command every xvc-tracked path is ignored according to real git,
-`git add -A -n` stages none of them and nothing of the cache, every .gitignore has its previous bytes as a prefix
-and its previous lines as a prefix of its lines.
+Oracle (independent of the model): after every xvc command every xvc-tracked path that the command named as target /
+materialised, or that git ignored just before the command, is ignored according to real git, `git add -A -n` stages
+none of them and nothing of the cache, every .gitignore has its previous bytes as a prefix and its previous lines as a
+prefix of its lines.  Histories interleave xvc commands with user edits (lost .gitignore, regenerated directory,
+deleted lines): a later command that names a recorded path must re-establish "tracked => ignored".
 
 The Lean model mirrors the code WITH patches/C09-F8.patch and patches/C16-newline.patch.
 """
-import hashlib, os, re, shutil, subprocess
-from common import Check, VERIF, REPO, sh
+import fnmatch, hashlib, os, re, shutil, subprocess, time
+from common import Check, VERIF, REPO, sh, shrink
 import ignore_extract, c09
 from c09 import hx, unhx, Procs, enc_tree, normalise, show_tree
 from xvcbin import Sandbox
@@ -207,8 +209,12 @@ def classify(sb, pr, path, why, special_names):
     return {'kind': 'unclassified', 'xvc_opinion': a[0]}
 
 
-def oracle_after(chk, sb, pr, before, cmd, special_names=()):
-    """what C16 demands after a command; returns list of (message, signature)"""
+def oracle_after(chk, sb, pr, before, cmd, obliged=None):
+    """what C16 demands after a command; returns (list of (message, signature), .gitignore contents, tracked files).
+    `obliged`: the tracked paths the command has to leave ignored (None = every tracked path): the recorded files among
+    the command's targets / the files it materialised, plus every tracked path git ignored just before the command.
+    A tracked path the USER un-ignored (deleted line, deleted .gitignore) and that no later command was asked to handle
+    is not demanded: xvc cannot know."""
     out = []
     after = read_gitignores(sb)
     for d, old in before.items():
@@ -222,20 +228,38 @@ def oracle_after(chk, sb, pr, before, cmd, special_names=()):
             if old and not old.endswith('\n') and new != old and nl[len(ol) - 1] != ol[-1]:
                 out.append((f'{cmd}: the last line {ol[-1]!r} of {d or "."}/{GI} (no final newline) became {nl[len(ol) - 1][:60]!r}',
                             {'kind': 'banner-glued-to-last-user-line'}))
+            # information only (not demanded by the property text): a line appended although the same line was already there
+            have = set(ol)
+            for l in new[len(old):].split('\n'):
+                if l and not l.startswith('###') and l in have: chk.count('observation:appended-line-already-present')
     tr = tracked_files(sb)
     real = git_check_ignore(sb.root, sb.env, tr)
     for p in tr:
         r = real.get(p)
         if r is not None and not r[0]:
-            out.append((f'{cmd}: tracked path {p} is not ignored by git ({r[1] or "no pattern matches"})', classify(sb, pr, p, r[1], special_names)))
+            if obliged is None or p in obliged:
+                out.append((f'{cmd}: tracked path {p} is not ignored by git ({r[1] or "no pattern matches"})', classify(sb, pr, p, r[1], ())))
+            else:
+                chk.count('oracle:released-path(user un-ignored it, no later command named it)')
+        elif r is not None and (obliged is None or p in obliged):
+            chk.count('oracle:obliged-path-ignored')
     rc, o, e = sb.git('-c', 'core.quotePath=false', 'add', '-A', '-n')
     staged = [l[5:-1] for l in o.split('\n') if l.startswith("add '")]
     for s in staged:
-        if s in tr and not any(s in m for m, _ in out):
+        if s in tr and (obliged is None or s in obliged) and not any(s in m for m, _ in out):
             out.append((f'{cmd}: `git add -A` would stage the tracked path {s}', {'kind': 'unclassified'}))
         if re.match(r'\.xvc/(b3|b2|s2|s3)/', s):
             out.append((f'{cmd}: `git add -A` would stage the cache object {s}', {'kind': 'cache-staged'}))
-    return out, after
+    return out, after, tr
+
+
+def parse_contents(ans):
+    out = {}
+    for item in ans.split(' '):
+        if item:
+            d, c = item.split(':')
+            out[unhx(d)[1:]] = unhx(c)
+    return out
 
 
 def model_after(pr, op, ents, dirs, files):
@@ -244,12 +268,18 @@ def model_after(pr, op, ents, dirs, files):
     _, am, _ = pr.both([line])
     if am[0] is None:
         return None
-    out = {}
-    for item in am[0].split(' '):
-        if item:
-            d, c = item.split(':')
-            out[unhx(d)[1:]] = unhx(c)
-    return out
+    return parse_contents(am[0])
+
+
+def model_trackcmd(pr, ents, dirs, files, carried, recorded):
+    """the model's `trackCmd` on the state (recorded paths, workspace): (.gitignore contents, recorded paths afterwards)"""
+    j = lambda l: ','.join(hx(x) for x in l)
+    line = f'gtrackcmd\t{enc_tree(ents)}\t{hx("DATE")}\t{j(dirs)}\t{j(files)}\t{j(carried)}\t{j(recorded)}'
+    _, am, _ = pr.both([line])
+    if am[0] is None or am[0] == 'bad-op':
+        return None, None
+    c, _, r = am[0].partition('|')
+    return parse_contents(c), sorted(unhx(h) for h in r.split(',') if h)
 
 
 def with_contents(ents, contents):
@@ -260,8 +290,198 @@ def with_contents(ents, contents):
     return out
 
 
+# ---------------------------------------------------------------------------------------------
+# histories: xvc commands and, between them, what a user does to the workspace
+
+USER_STEPS = ('u-rm-gitignore', 'u-regen-dir', 'u-del-line', 'u-modify')
+
+
+def ext_of(f):
+    return os.path.splitext(f)[1]
+
+
+def glob_match(t, f):
+    """xvc's glob targets as far as the generator uses them (`d/*.ext`, `*.ext`): `*` does not cross a `/` (fast_glob)"""
+    d, _, pat = t.rpartition('/')
+    return os.path.dirname(f) == d and fnmatch.fnmatchcase(os.path.basename(f), pat)
+
+
+def target_files(targets, paths):
+    """the members of `paths` a target list names: file targets, `dir/` targets (everything below), glob targets"""
+    out = set()
+    for t in targets:
+        if t.endswith('/'): out |= {f for f in paths if f.startswith(t)}
+        elif '*' in t: out |= {f for f in paths if glob_match(t, f)}
+        elif t in paths: out.add(t)
+    return out
+
+
+def step_text(c):
+    k = c[0]
+    if k == 'track': return 'xvc file track ' + ' '.join(list(c[2] if len(c) > 2 else []) + list(c[1]))
+    if k == 'rm-recheck': return (f'rm -rf {os.path.dirname(c[1])}; xvc file recheck (everything tracked below)' if c[2] else f'rm {c[1]}; xvc file recheck {c[1]}')
+    if k in ('recheck', 'carry-in'): return f'xvc file {k} ' + ('--force ' if c[2] else '') + ' '.join(c[1])
+    if k in ('copy', 'move'): return f'xvc file {k} {c[1]} {c[2]}'
+    if k == 'u-rm-gitignore': return f'user: rm {c[1]}/{GI}'
+    if k == 'u-regen-dir': return f'user: rm -rf {c[1]}; regenerate the files below {c[1]}/ with identical content (no {GI})'
+    if k == 'u-del-line': return f'user: delete the line {c[2]!r} from {c[1] or "."}/{GI}'
+    if k == 'u-modify': return f'user: change the content of {c[1]}'
+    return repr(c)
+
+
+def user_step(sb, st, c, protected):
+    """a user edit of the workspace between two xvc commands"""
+    files, content = st['files'], st['content']
+    k = c[0]
+    if k == 'u-rm-gitignore':
+        p = sb.path((c[1] + '/' if c[1] else '') + GI)
+        if c[1] and os.path.lexists(p): os.unlink(p)
+    elif k == 'u-regen-dir':
+        d = c[1]
+        if d and os.path.isdir(sb.path(d)):
+            present = [f for f in files if f.startswith(d + '/') and os.path.lexists(sb.path(f))]
+            for dp, dn, fn in os.walk(sb.path(d)):
+                os.chmod(dp, 0o755)
+            shutil.rmtree(sb.path(d))
+            for f in present:
+                sb.write(f, content[f])
+    elif k == 'u-del-line':
+        g = (c[1] + '/' if c[1] else '') + GI
+        old = sb.read(g)
+        if old is not None:
+            lines = old.decode('utf-8', 'replace').split('\n')
+            keep = [l for i, l in enumerate(lines) if l != c[2] or (not c[1] and i < protected)]
+            sb.write(g, '\n'.join(keep))
+    elif k == 'u-modify':
+        f = c[1]
+        if os.path.lexists(sb.path(f)):
+            content[f] = content.get(f, '') + ' ' + str(c[2])
+            sb.write(f, content[f])
+
+
+def check_ignore_raw(sb, paths):
+    """{path: (source file, line number, pattern)} from real git, ('', 0, '') = no pattern matches"""
+    if not paths:
+        return {}
+    p = subprocess.run(['git', '-c', 'core.quotePath=false', 'check-ignore', '--no-index', '-v', '-n', '-z', '--stdin'], cwd=sb.root, env=sb.env,
+                       input='\0'.join(paths) + '\0', capture_output=True, text=True, timeout=60)
+    f = p.stdout.split('\0')
+    return {f[i + 3]: (f[i], int(f[i + 1] or 0), f[i + 2]) for i in range(0, len(f) - 3, 4)}
+
+
+def gen_user_step(rng, sb, st, tr_disk, protected, k):
+    r = rng.random()
+    nested = [f for f in tr_disk if '/' in f]
+    if r < 0.28 and nested:
+        d = os.path.dirname(rng.choice(nested))
+        if '/' in d and rng.random() < 0.4: d = d.split('/')[0]
+        return ('u-regen-dir', d)
+    if r < 0.45:
+        ds = sorted({os.path.dirname(f) for f in nested if os.path.lexists(sb.path(os.path.dirname(f) + '/' + GI))})
+        if ds: return ('u-rm-gitignore', rng.choice(ds))
+    if r < 0.85:
+        f = rng.choice(tr_disk)
+        src, ln, pat = check_ignore_raw(sb, [f]).get(f, ('', 0, ''))
+        if src.endswith(GI) and not (src == GI and ln <= protected):
+            text = (sb.read(src) or b'').decode('utf-8', 'replace').split('\n')
+            if 0 < ln <= len(text):
+                return ('u-del-line', os.path.dirname(src), text[ln - 1])
+        # any user line of any file
+        gis = read_gitignores(sb)
+        d = rng.choice(sorted(gis))
+        cand = [l for i, l in enumerate(gis[d].split('\n')) if l and not l.startswith('###') and not (d == '' and i < protected)]
+        if cand: return ('u-del-line', d, rng.choice(cand))
+    return ('u-modify', rng.choice(tr_disk), 'v%d' % k)
+
+
+def gen_repair(rng, st, f, on_disk):
+    """a command that names the recorded path f as (part of) its target"""
+    rec, cache = st['rec'], st['cache']
+    committed = (rec.get(f), ext_of(f)) in cache
+    opts = ['--no-commit'] if rng.random() < 0.3 else []
+    r = rng.random()
+    if r < 0.30:
+        more = [g for g in sorted(on_disk) if g != f and rng.random() < 0.25][:1]
+        return ('track', [f] + more, opts)
+    if r < 0.52:
+        d = os.path.dirname(f)
+        return ('track', [(d + '/' if d else '') + '*' + ext_of(f)], opts)
+    if r < 0.66 and '/' in f:
+        return ('track', [os.path.dirname(f) + '/'], opts)
+    if r < 0.76 and committed: return ('recheck', [f], True)
+    if r < 0.86: return ('carry-in', [f], True)
+    if r < 0.93 and committed: return ('recheck', [f], False)
+    if r < 0.97: return ('carry-in', [f], False)
+    return ('track', [f], opts)
+
+
+def gen_step(rng, chk, sb, st, protected, k):
+    """next step of a generated history (the state decides what is possible)"""
+    if st['queue']:
+        return st['queue'].pop(0)
+    files, rec, cache = st['files'], st['rec'], st['cache']
+    on_disk = {f for f in files if os.path.lexists(sb.path(f))}
+    recorded = set(rec)
+    cand = sorted(on_disk - recorded)
+    tr_disk = sorted(recorded & on_disk)
+    if tr_disk and st['user_run'] < 2 and rng.random() < (0.42 if st['user_run'] == 0 else 0.3):
+        return gen_user_step(rng, sb, st, tr_disk, protected, k)
+    # recorded, present, not ignored: the ignore state and the store are out of step
+    real = git_check_ignore(sb.root, sb.env, tr_disk)
+    loose = [p for p in tr_disk if p in real and not real[p][0]]
+    if loose and rng.random() < 0.8:
+        f = rng.choice(loose)
+        c = gen_repair(rng, st, f, on_disk)
+        if c[0] in ('track', 'carry-in') and rng.random() < 0.25:
+            st['queue'].append(c)
+            return ('u-modify', f, 'v%d' % k)
+        return c
+    r = rng.random()
+    committed = [f for f in sorted(recorded) if (rec.get(f), ext_of(f)) in cache]
+    clean = [f for f in committed if f not in on_disk or st['content'].get(f) == rec.get(f)]
+    if (r < 0.36 and cand) or not recorded:
+        if not cand: return None
+        opts = ['--no-commit'] if rng.random() < 0.12 else []
+        r2 = rng.random()
+        f = rng.choice(cand)
+        d = os.path.dirname(f)
+        if r2 < 0.3 and d: return ('track', [d + '/'], opts)
+        if r2 < 0.45: return ('track', [(d + '/' if d else '') + '*' + ext_of(f)], opts)
+        return ('track', rng.sample(cand, min(len(cand), rng.randint(1, 2))), opts)
+    if r < 0.50 and tr_disk:
+        f = rng.choice(tr_disk)
+        c = gen_repair(rng, st, f, on_disk)
+        if c[0] in ('track', 'carry-in') and rng.random() < 0.4:
+            st['queue'].append(c)
+            return ('u-modify', f, 'v%d' % k)
+        return c
+    if r < 0.66 and committed:
+        f = rng.choice(committed)
+        return ('rm-recheck', f, rng.random() < 0.4 and '/' in f)
+    if r < 0.86 and clean:
+        f = rng.choice([g for g in clean if g in on_disk] or clean)
+        dst = rng.choice(['', 'a/', 'new/', 'new/deep/', os.path.dirname(f) + '/' if '/' in f else '']) + 'copy%d%s' % (k, ext_of(f))
+        return ('copy', f, dst)
+    if clean:
+        f = rng.choice([g for g in clean if g in on_disk] or clean)
+        return ('move', f, rng.choice(['', 'mv/', 'b/']) + 'moved%d%s' % (k, ext_of(f)))
+    if tr_disk:
+        return gen_repair(rng, st, rng.choice(tr_disk), on_disk)
+    return None
+
+
+def with_parents(ents, paths):
+    """the workspace with the directories `recheck_from_cache` (create_dir_all) makes for `paths`"""
+    ents = list(ents)
+    for t2 in paths:
+        parts = t2.split('/')[:-1]
+        for k2 in range(1, len(parts) + 1):
+            if ('D', '/'.join(parts[:k2])) not in ents: ents.append(('D', '/'.join(parts[:k2])))
+    return ents
+
+
 def scenario(chk, pr, xvc, idx, rng, forced=None):
-    """one scratch repository, a short history of commands; returns (oracle failures, tie messages, log)"""
+    """one scratch repository, a history of xvc commands and user edits; returns (oracle failures, tie messages, log)"""
     sb = Sandbox(chk.scratch, f'g{idx}', xvc)
     fails, tie, log = [], [], []
     try:
@@ -270,7 +490,7 @@ def scenario(chk, pr, xvc, idx, rng, forced=None):
             return [(f'xvc init rc={rc} {err[-200:]}', {'kind': 'unclassified'})], tie, log
         spec = forced or {}
         if forced:
-            files, gis, cmds = spec['files'], spec['gitignores'], spec['commands']
+            files, gis, cmds = list(spec['files']), dict(spec['gitignores']), [tuple(c) for c in spec['commands']]
         else:
             dirs = rng.sample(DIRS, rng.randint(1, 3))
             dirs += [d + '/' + rng.choice(DIRS) for d in dirs if rng.random() < 0.5]
@@ -289,100 +509,135 @@ def scenario(chk, pr, xvc, idx, rng, forced=None):
                 if rng.random() < 0.45:
                     gis[d] = g_content(rng, names, [x.split('/')[-1] for x in dirs], chk)
             cmds = None
+        content = {f: 'data of ' + f for f in files}
         for f in files:
-            sb.write(f, 'data of ' + f)
+            sb.write(f, content[f])
         root_gi = sb.read(GI).decode()
+        protected = len(root_gi.split('\n')) - 1        # the lines `xvc init` wrote: a user who deletes those un-ignores the cache
         for d, c in gis.items():
             sb.write((d + '/' if d else '') + GI, (root_gi if d == '' else '') + c)
         sb.git('add', '-f', '--', '*' + GI, GI); sb.git('commit', '-q', '-m', 'user gitignores')     # -f: also inside ignored directories
-        log.append({'files': files, 'gitignores': gis})
-        tracked = set()
-        ncmd = len(cmds) if cmds else rng.randint(2, 5)
-        for k in range(ncmd):
+        log.append({'files': list(files), 'gitignores': dict(gis)})
+        # rec: content recorded for every recorded file (what we did, not what the model says); cache: (content, extension) objects
+        st = {'files': files, 'content': content, 'rec': {}, 'cache': set(), 'queue': [], 'user_run': 0}
+        rec, cache = st['rec'], st['cache']
+        store = []                                      # File entries of the XvcPath store after the previous command
+        want = len([c for c in cmds if c[0] not in USER_STEPS]) if cmds else rng.randint(2, 5)
+        k = nx = 0
+        while True:
+            if cmds is not None:
+                if k >= len(cmds): break
+                c = cmds[k]
+            else:
+                if nx >= want and not st['queue']: break
+                c = gen_step(rng, chk, sb, st, protected, k)
+                if c is None: break
+            k += 1
+            if c[0] in USER_STEPS:
+                user_step(sb, st, c, protected)
+                st['user_run'] += 1
+                chk.count('user-step:' + c[0])
+                log.append({'user': step_text(c), 'step': list(c)})
+                continue
+            st['user_run'] = 0
+            nx += 1
             before = read_gitignores(sb)
             ents = disk_tree(sb)
             on_disk = {f for f in files if os.path.lexists(sb.path(f))}
-            if cmds:
-                c = cmds[k]
-            else:
-                r = rng.random()
-                cand = sorted(on_disk - tracked)
-                if (r < 0.45 and cand) or not tracked:
-                    if not cand: break
-                    if rng.random() < 0.4:
-                        d = os.path.dirname(rng.choice(cand)) or os.path.dirname(cand[0])
-                        c = ('track', [d + '/']) if d else ('track', [rng.choice(cand)])
-                    else:
-                        c = ('track', rng.sample(cand, min(len(cand), rng.randint(1, 2))))
-                elif r < 0.65:
-                    f = rng.choice(sorted(tracked))
-                    c = ('rm-recheck', f, rng.random() < 0.4 and '/' in f)
-                elif r < 0.85:
-                    f = rng.choice(sorted(tracked & on_disk) or sorted(tracked))
-                    ext = os.path.splitext(f)[1]
-                    dst = rng.choice(['', 'a/', 'new/', 'new/deep/', os.path.dirname(f) + '/' if '/' in f else '']) + 'copy%d%s' % (k, ext)
-                    c = ('copy', f, dst)
-                else:
-                    f = rng.choice(sorted(tracked & on_disk) or sorted(tracked))
-                    ext = os.path.splitext(f)[1]
-                    c = ('move', f, rng.choice(['', 'mv/', 'b/']) + 'moved%d%s' % (k, ext))
-            chk.count('command:' + c[0])
-            exp = None
+            real0 = git_check_ignore(sb.root, sb.env, store)
+            ign_before = {p for p in store if p in real0 and real0[p][0]}
+            cur = {f: (sb.read(f) or b'').decode('utf-8', 'replace') for f in on_disk}
+            exp = exp_rec = None
+            named = set()                 # recorded files the command names as targets and has to leave ignored
+            desc = step_text(c)
             if c[0] == 'track':
-                targets = c[1]
-                rc, out, err = sb.x('file', 'track', *targets)
+                targets, opts = list(c[1]), list(c[2]) if len(c) > 2 else []
+                no_commit = '--no-commit' in opts
+                rc, out, err = sb.x('file', 'track', *opts, *targets)
                 dts = [t.rstrip('/') for t in targets if t.endswith('/')]
-                fts = sorted(f for f in on_disk if any(f == t or (t.endswith('/') and f.startswith(t)) for t in targets))
+                fts = target_files(targets, on_disk)
                 # a .gitignore that git does not track (xvc wrote it inside a git-ignored directory, so the auto-commit could
                 # not add it) is an ordinary untracked file for `xvc file track dir/`
                 _, ls, _ = sb.git('ls-files')
                 in_git = set(ls.split('\n'))
-                for d2, _c in list(before.items()):
+                for d2, c2 in list(before.items()):
                     g = (d2 + '/' if d2 else '') + GI
                     if g not in in_git and any(t.endswith('/') and g.startswith(t) for t in targets):
-                        fts.append(g)
-                fts = sorted(set(fts))
-                # cmd_track: update_dir/file_gitignores, then carry-in rechecks the newly committed files (ignore handler)
-                exp = model_after(pr, 'gtrack', ents, dts, fts)
-                new = sorted(set(fts) - tracked)
-                if exp is not None and new:
-                    exp = model_after(pr, 'ghandler', with_contents(ents, exp), [], new)
-                tracked |= set(fts)
-                desc = 'xvc file track ' + ' '.join(targets)
-            elif c[0] == 'rm-recheck':
-                f, whole_dir = c[1], c[2]
-                dops = []
-                if whole_dir:
-                    d = os.path.dirname(f)
-                    lost = sorted(t for t in tracked if t.startswith(d + '/'))
-                    for dp, dn, fn in os.walk(sb.path(d)):
-                        os.chmod(dp, 0o755)
-                    shutil.rmtree(sb.path(d))
-                    before = {k2: v for k2, v in before.items() if not (k2 == d or k2.startswith(d + '/'))}
-                    ents = disk_tree(sb)
-                    # recheck_from_cache re-creates the parents: the model works on the tree that has them
-                    for t2 in lost:
-                        parts = t2.split('/')[:-1]
-                        for k2 in range(1, len(parts) + 1):
-                            if ('D', '/'.join(parts[:k2])) not in ents: ents.append(('D', '/'.join(parts[:k2])))
-                    rc, out, err = sb.x('file', 'recheck', *lost)
-                    dops = sorted({os.path.dirname(t) for t in lost})
-                    exp = model_after(pr, 'ghandler', ents, dops[:1] if len(dops) == 1 else None or dops, lost) if len(dops) == 1 else None
-                    desc = f'rm -rf {d}; xvc file recheck ' + ' '.join(lost)
+                        fts.add(g); cur[g] = c2
+                fts = sorted(fts)
+                again = [f for f in fts if f in store]
+                shape = 'dir' if dts else 'glob' if any('*' in t for t in targets) else 'file'
+                chk.count(f'command:track:{shape}' + (':no-commit' if no_commit else ''))
+                if again:
+                    chk.count(f'retrack:{shape}' + (':no-commit' if no_commit else ''))
+                    chk.count('retrack:content-' + ('changed' if any(rec.get(f) != cur[f] for f in again) else 'unchanged'))
+                    if any(f not in ign_before for f in again):
+                        chk.count('retrack:recorded-target-was-not-ignored')
+                # cmd_track: update_dir/file_gitignores for ALL targets, then carry-in rechecks the files with new content (ignore handler)
+                carried = [] if no_commit else [f for f in fts if rec.get(f) != cur[f]]
+                exp, exp_rec = model_trackcmd(pr, ents, dts, fts, carried, store)
+                if rc == 0:
+                    for f in fts: rec[f] = cur[f]
+                    for f in carried: cache.add((cur[f], ext_of(f)))
+                named = set(fts)
+            elif c[0] in ('rm-recheck', 'recheck'):
+                force = False
+                if c[0] == 'rm-recheck':
+                    f, whole_dir = c[1], c[2]
+                    if whole_dir:
+                        d = os.path.dirname(f)
+                        targets = sorted(t for t in rec if t.startswith(d + '/'))
+                        for dp, dn, fn in os.walk(sb.path(d)):
+                            os.chmod(dp, 0o755)
+                        shutil.rmtree(sb.path(d), ignore_errors=True)
+                        before = {k2: v for k2, v in before.items() if not (k2 == d or k2.startswith(d + '/'))}
+                        ents = disk_tree(sb)
+                        desc = f'rm -rf {d}; xvc file recheck ' + ' '.join(targets)
+                    else:
+                        if os.path.lexists(sb.path(f)): os.unlink(sb.path(f))
+                        targets = [f]
                 else:
-                    if os.path.lexists(sb.path(f)): os.unlink(sb.path(f))
-                    rc, out, err = sb.x('file', 'recheck', f)
-                    exp = model_after(pr, 'ghandler', ents, [], [f])
-                    desc = f'rm {f}; xvc file recheck {f}'
+                    targets, force = list(c[1]), bool(c[2])
+                chk.count('command:recheck' + (':force' if force else ''))
+                absent = {f for f in targets if not os.path.lexists(sb.path(f))}
+                mat = sorted(f for f in targets if (rec.get(f), ext_of(f)) in cache and (force or f in absent))
+                made = sorted({os.path.dirname(f) for f in mat if os.path.dirname(f) and not os.path.isdir(sb.path(os.path.dirname(f)))})
+                rc, out, err = sb.x('file', 'recheck', *(['--force'] if force else []), *targets)
+                # recheck_from_cache re-creates the parents: the model works on the tree that has them; with several missing
+                # parents the IgnoreDir operations depend on the order of the worker threads
+                if len(made) <= 1:
+                    exp = model_after(pr, 'ghandler', with_parents(ents, mat), made, mat)
+                for f in mat:
+                    content[f] = rec[f]
+                named = {f for f in targets if (force or f in absent) and os.path.lexists(sb.path(f))}
+                idle = [f for f in targets if f not in named and f not in ign_before and os.path.lexists(sb.path(f))]
+                if idle: chk.count('observation:recheck-of-present-file-is-a-no-op(not re-ignored, not demanded)')
+            elif c[0] == 'carry-in':
+                targets, force = list(c[1]), bool(c[2])
+                chk.count('command:carry-in' + (':force' if force else ''))
+                present = [f for f in targets if f in on_disk]
+                carried = sorted(f for f in present if f in rec and (force or rec.get(f) != cur[f]))
+                rc, out, err = sb.x('file', 'carry-in', *(['--force'] if force else []), *targets)
+                exp = model_after(pr, 'ghandler', ents, [], carried)
+                if rc == 0:
+                    for f in carried:
+                        rec[f] = cur[f]; cache.add((cur[f], ext_of(f)))
+                named = set(carried)
+                idle = [f for f in present if f not in named and f not in ign_before]
+                if idle: chk.count('observation:carry-in-of-unchanged-file-is-a-no-op(not re-ignored, not demanded)')
             elif c[0] in ('copy', 'move'):
                 src, dst = c[1], c[2]
+                chk.count('command:' + c[0])
                 parent = os.path.dirname(dst)
                 missing = bool(parent) and not os.path.isdir(sb.path(parent))
                 rc, out, err = sb.x('file', c[0], src, dst)
                 if rc == 0:
-                    tracked.add(dst)
                     files.append(dst)
-                    if c[0] == 'move': tracked.discard(src)
+                    content[dst] = cur.get(src, rec.get(src, ''))
+                    if src in rec:
+                        rec[dst] = rec[src]
+                        if (rec[src], ext_of(src)) in cache: cache.add((rec[src], ext_of(dst)))
+                    if c[0] == 'move': rec.pop(src, None)
                     if missing:
                         # recheck_from_cache created the parent: the model works on the tree that has it
                         ents = ents + [('D', p) for p in ([parent] + ([os.path.dirname(parent)] if '/' in parent else [])) if ('D', p) not in ents]
@@ -390,19 +645,26 @@ def scenario(chk, pr, xvc, idx, rng, forced=None):
                         exp = model_after(pr, 'gmove', ents, [], [dst])
                     else:
                         exp = model_after(pr, 'ghandler', ents, [parent] if missing else [], [dst])
-                desc = f'xvc file {c[0]} {src} {dst}'
-            log.append({'cmd': desc, 'rc': rc})
+                    named = {dst}
+            else:
+                raise ValueError(f'unknown step {c!r}')
+            log.append({'cmd': desc, 'rc': rc, 'step': list(c)})
             if rc not in (0,):
                 log[-1]['stderr'] = err[-300:]
-            of, after = oracle_after(chk, sb, pr, before, desc)
+            of, after, store = oracle_after(chk, sb, pr, before, desc, obliged=ign_before | named)
             fails += of
+            # what we believe is recorded follows the store (a refused command records nothing)
+            for f in [f for f in rec if f not in store]:
+                chk.count('bookkeeping:believed-recorded-but-not-in-store'); rec.pop(f)
             if exp is not None and rc == 0:
                 # an empty .gitignore and no .gitignore are the same workspace for the model (create+append)
                 got = {d: canon(c2) for d, c2 in after.items() if c2}
-                want = {d: canon(c2) for d, c2 in exp.items() if c2}
-                if got != want:
-                    dd = sorted(d for d in set(got) | set(want) if got.get(d) != want.get(d))[0]
-                    tie.append((f'{desc}: bytes of {dd or "."}/{GI}', got.get(dd), want.get(dd)))
+                want_c = {d: canon(c2) for d, c2 in exp.items() if c2}
+                if got != want_c:
+                    dd = sorted(d for d in set(got) | set(want_c) if got.get(d) != want_c.get(d))[0]
+                    tie.append((f'{desc}: bytes of {dd or "."}/{GI}', got.get(dd), want_c.get(dd)))
+                if exp_rec is not None and sorted(exp_rec) != sorted(store):
+                    tie.append((f'{desc}: recorded file paths (XvcPath store)', sorted(store), sorted(exp_rec)))
             if fails and not forced:
                 break
     finally:
@@ -423,11 +685,28 @@ CORPUS = [
     {'files': ['x.bin', 'u.log'], 'gitignores': {'': '*.log'}, 'commands': [('track', ['x.bin'])]},
     {'files': ['a/x.bin', 'a/y.bin', 'b/m.dat'], 'gitignores': {'a': '# mine\ny.bin'}, 'commands': [('track', ['a/']), ('track', ['b/m.dat']), ('rm-recheck', 'a/x.bin', True)]},
     {'files': ['a/x.bin', 'w.txt'], 'gitignores': {'': '*.txt\n'}, 'commands': [('track', ['a/x.bin', 'w.txt']), ('copy', 'a/x.bin', 'new/deep/c.bin'), ('move', 'a/x.bin', 'mv/z.bin')]},
+    # the ignore state and the store out of step (seeded defect C16-1: only paths new to the store reach update_file_gitignores):
+    # the output directory is wiped together with its .gitignore and regenerated with identical content, tracked again
+    {'files': ['out/model.bin', 'out/metrics.bin'], 'gitignores': {},
+     'commands': [('track', ['out/model.bin', 'out/metrics.bin'], []), ('u-regen-dir', 'out'), ('track', ['out/model.bin', 'out/metrics.bin'], [])]},
+    # glob target, .gitignore lost, --no-commit
+    {'files': ['out/model.bin', 'out/notes.txt'], 'gitignores': {},
+     'commands': [('track', ['out/*.bin'], []), ('u-rm-gitignore', 'out'), ('track', ['out/*.bin'], ['--no-commit'])]},
+    # the user deletes the line xvc wrote, then names the path again (file target), later once more after a change of content
+    {'files': ['a/x.bin', 'a/y.bin'], 'gitignores': {'a': '# mine\n'},
+     'commands': [('track', ['a/x.bin', 'a/y.bin'], []), ('u-del-line', 'a', '/x.bin'), ('track', ['a/x.bin'], []),
+                  ('u-del-line', 'a', '/x.bin'), ('u-modify', 'a/x.bin', 'v2'), ('track', ['a/x.bin'], []),
+                  ('u-del-line', 'a', '/y.bin'), ('recheck', ['a/y.bin'], True), ('u-del-line', 'a', '/y.bin'), ('carry-in', ['a/y.bin'], True)]},
 ]
+# the first track happens while a user rule whitelists the file (K6a, known: xvc asks the user to remove the rule); the user
+# removes the rule and tracks again: from here on the path is outside the known region and must be ignored
+WHITELIST_THEN_REMOVED = {'files': ['labels.csv', 'other.csv'], 'gitignores': {'': '*.csv\n!labels.csv\n'},
+                          'commands': [('track', ['labels.csv'], []), ('u-del-line', '', '!labels.csv'), ('u-del-line', '', '*.csv'), ('track', ['labels.csv'], [])]}
 
 
 def run(chk: Check):
     quick = chk.tier == 'quick'
+    t_phase = time.time()
     ignore_extract.run(chk)
     model = chk.lean('XvcIgnore', 'XvcIgnore.Props.C16', exe='ignoremodel',
                      extra_modules=['XvcIgnore.Glob', 'XvcIgnore.Pattern', 'XvcIgnore.Walk', 'XvcIgnore.GitIgnore', 'XvcIgnore.Lemmas', 'XvcIgnore.GitLemmas', 'XvcIgnore.GitMono'])
@@ -436,6 +715,7 @@ def run(chk: Check):
     if not os.path.exists(model):
         chk.notes.append('model driver did not build; only the implementation-side oracle can run'); model = None
     pr = Procs(chk, impl, model)
+    chk.extra.setdefault('phase_s', {})['lean+cargo builds'] = round(time.time() - t_phase, 1)
     chk.trusted_base += [
         'translator lib/ignore_extract.py (GITIGNORE_INITIAL_CONTENT, COMMON_IGNORE_PATTERNS), cross-checked against the compiled constants (stream `const`)',
         'harness harness/src/bin/walker_harness.rs (`gcheckignore` = build_ignore_patterns(.gitignore)+check, as build_gitignore does), lib/c16.py (generators, canonicalisation of dates and of the HashMap order inside one appended block, oracle), lib/xvcbin.py',
@@ -451,6 +731,7 @@ def run(chk: Check):
 
     c09.stream_simple(chk, pr, 'const', ['common', 'gitignore'], lambda c: 'const\t' + c, lambda c, x: True)
 
+    t_phase = time.time()
     # ---- opinions: xvc's matcher and git's matcher on generated trees
     n_trees = 80 if quick else 800
     st = chk.tie['streams'].setdefault('opinions', {'cases': 0, 'disagreements': 0})
@@ -471,15 +752,36 @@ def run(chk: Check):
         t2 = opinions(chk, pr, small, 'final') or t
         chk.disagreement('opinions', show_tree(small), t2[0][1], t2[0][2], t2[0][0])
 
+    chk.extra.setdefault('phase_s', {})['opinions'] = round(time.time() - t_phase, 1); t_phase = time.time()
+
     # ---- binary histories
-    n_sc = 45 if quick else 350
-    bst = chk.tie['streams'].setdefault('binary', {'cases': 0, 'commands': 0, 'disagreements': 0, 'oracle_failures': 0})
+    n_sc = 40 if quick else 350
+    bst = chk.tie['streams'].setdefault('binary', {'cases': 0, 'commands': 0, 'user_steps': 0, 'disagreements': 0, 'oracle_failures': 0})
     seen_sig = set()
-    specs = [dict(s) for s in CORPUS] + [None] * n_sc
+    specs = [dict(s) for s in CORPUS] + [dict(WHITELIST_THEN_REMOVED)] + [None] * n_sc
+    known = [f['match'] for f in chk.known_findings if f.get('status') == 'open' and f.get('match')]
+    is_known = lambda sig: any(all(sig.get(k) == v for k, v in m.items()) for m in known)
     for i, spec in enumerate(specs):
         fails, tie, log = scenario(chk, pr, xvc, i, rng, forced=spec)
-        bst['cases'] += 1; bst['commands'] += len(log) - 1; chk.evaluations += 1
+        bst['cases'] += 1; chk.evaluations += 1
+        bst['commands'] += sum(1 for l in log if 'cmd' in l); bst['user_steps'] += sum(1 for l in log if 'user' in l)
         if len(log) > 1: chk.nontrivial.add(hashlib.sha1(repr(log).encode()).hexdigest())
+        new_fails = [(m, sg) for m, sg in fails if tuple(sorted(sg.items())) not in seen_sig]
+        if spec is None and any(not is_known(sg) for _, sg in new_fails) and len(log) > 2:
+            # minimise the history: drop steps while a failure with the same signature remains
+            kind = next(sg for _, sg in new_fails if not is_known(sg))
+            steps = [l['step'] for l in log[1:]]
+            nshr = [0]
+            def still(cand):
+                nshr[0] += 1
+                f2, _, _ = scenario(chk, pr, xvc, f'shr{i}_{nshr[0]}', rng, forced={'files': log[0]['files'], 'gitignores': log[0]['gitignores'], 'commands': cand})
+                return any(sg == kind for _, sg in f2)
+            small = shrink(steps, still, max_steps=14)
+            if len(small) < len(steps):
+                f2, t2, l2 = scenario(chk, pr, xvc, f'shr{i}_final', rng, forced={'files': log[0]['files'], 'gitignores': log[0]['gitignores'], 'commands': small})
+                if any(sg == kind for _, sg in f2):
+                    fails, log = f2, l2
+                    chk.count('shrunk-history')
         for msg, sig in fails:
             key = tuple(sorted(sig.items()))
             if key in seen_sig: continue
@@ -491,7 +793,8 @@ def run(chk: Check):
             if bst['disagreements'] == 1:
                 chk.disagreement('binary', log, tie[0][1], tie[0][2], tie[0][0])
         if len(chk.samples) < 6 and len(log) >= 3 and i % 6 == 0:
-            chk.samples.append({'stream': 'binary', 'history': log, 'oracle': [m for m, _ in fails] or 'all tracked paths ignored by git, every .gitignore append-only'})
+            chk.samples.append({'stream': 'binary', 'history': log, 'oracle': [m for m, _ in fails] or 'every obliged tracked path ignored by git, every .gitignore append-only'})
+    chk.extra['phase_s']['binary'] = round(time.time() - t_phase, 1); t_phase = time.time()
 
     # ---- known-finding replays, judged by the oracle alone
     for j, spec in enumerate(K_REPLAYS):
@@ -508,9 +811,13 @@ def run(chk: Check):
         f'{n_trees} generated trees (<= 4 levels) with user .gitignore files from the gitignore grammar (names, *.ext, dir/, /anchored, a/b, **/x, ?, [..], !negations, '
         'comments, trailing blanks, missing final newline): for up to 14 entries each, xvc\'s reading (build_gitignore+check, directories with and without trailing slash) and '
         'real git\'s reading (`git check-ignore --no-index -v -n`) are compared with the model\'s check/gitIgnored; '
-        f'{len(specs)} scratch repositories with a history of 2-5 commands out of track file(s) / track dir/ / rm+recheck / rm -rf dir+recheck / copy (into existing, new and nested new directories) / move, '
-        'after every command: byte-prefix and line-prefix relation of every .gitignore, `git check-ignore` for every tracked path, `git add -A -n`, and the predicted bytes of every .gitignore (model) '
-        f'vs the real ones; {len(K_REPLAYS)} known-finding replays. Non-trivial = a tree with a user .gitignore / a history with at least two commands; distinct by input.')
+        f'{len(specs)} scratch repositories ({len(CORPUS) + 1} corpus histories first, among them the minimised multi-step histories of seeded defect C16-1) with a history of 2-5 xvc commands out of '
+        'track file(s) / dir/ / glob (new and already recorded paths, with and without --no-commit, unchanged and changed content) / rm+recheck / rm -rf dir+recheck / recheck [--force] / '
+        'carry-in [--force] / copy (into existing, new and nested new directories) / move, interleaved with user edits (delete a .gitignore; delete a directory with its .gitignore and regenerate the '
+        'files with identical content; delete the line that ignores a tracked path or any user line; change the content of a file); after every xvc command: byte-prefix and line-prefix relation of '
+        'every .gitignore, real `git check-ignore` and `git add -A -n` for every tracked path that the command named as target / materialised or that git ignored before the command (a path the user '
+        'un-ignored and no later command named is not demanded), and the predicted bytes of every .gitignore and the predicted set of recorded paths (model `trackCmd`/`handlerUpdate`/`moveUpdate` on the '
+        f'real prior state) vs the real ones; failing generated histories are shrunk; {len(K_REPLAYS)} known-finding replays. Non-trivial = a tree with a user .gitignore / a history with at least two steps; distinct by input.')
     chk.extra['programs'] = bst['cases']
     return chk.finish()
 
@@ -523,6 +830,8 @@ def replay(chk: Check, data):
         hist = f['case']['history']
         spec = {'files': list(hist[0]['files']), 'gitignores': dict(hist[0]['gitignores']), 'commands': []}
         for h in hist[1:]:
+            if h.get('step'):
+                spec['commands'].append(tuple(h['step'])); continue
             c = h['cmd']
             m = re.match(r'xvc file track (.*)', c)
             if m: spec['commands'].append(('track', m.group(1).split(' '))); continue
